@@ -72,11 +72,14 @@ def run(tier, seed):
     rng = random.Random(seed)
     thm = check_theorems("C06")
     names = ["simple", "dual", "extended", "super", "modelx", "models", "subotnik2d", "vibronic", "modelw", "modelz", "shin-metiu"]
-    npaths = 2 if tier == "quick" else 12
+    npaths = 3 if tier == "quick" else 12
     gc, gmeta, bad = [], [], []
     for name in names:
         for it in range(npaths):
             m, x0, _, _ = p05.model_case(rng, name)
+            diab = name != "shin-metiu" and (it % 3 == 2 if tier == "quick" else rng.random() < 0.3)
+            if diab:
+                m._representation = "diabatic"; res.count("representation/diabatic")      # H = V(x) itself: whatever V returns must not be a shared buffer
             nd = m.ndim(); n = m.nstates()
             kind = ["smooth", "jumps", "revisit"][it % 3]
             L = 25 if name != "shin-metiu" else 10
@@ -121,7 +124,7 @@ def run(tier, seed):
                 sg = np.sign(np.einsum("pi,pi->i", a["R"], b["R"]))
                 if np.max(np.abs(a["D"] - b["D"] * sg[:, None, None] * sg[None, :, None])) > 1e-7 * max(1e-12, np.max(np.abs(a["D"]))):
                     bad.append(dict(failed="couplings computed along a path differ from freshly computed ones only by the sign product s_i s_j", case=dict(info, step=k))); break
-                if k in (1, L - 1):
+                if k in (1, L - 1) and not diab:
                     V = m.V(xk); dV = m.dV(xk); Eall, Craw = np.linalg.eigh(V); N = V.shape[0]
                     gc.append(tup(nat(N), nat(n), bl(isinstance(m, S.ShinMetiu)), fls(Eall[:n]), flss(Craw[:, :n]), "(Some %s)" % flss(prevA._reference) if prevA is not None else "None",
                                   lst([flss(dV[d]) for d in range(dV.shape[0])]), flss(elA._reference), lst([fls(elA._force[:, d]) for d in range(nd)]),
